@@ -178,7 +178,7 @@ func (c *Ctx) loudFrom(start *ssa.BasicBlock, env *pathEnv, carried map[ssa.Valu
 			if v, isV := in.(ssa.Value); isV {
 				delete(e.facts, v) // re-executed: earlier facts about it are stale
 			}
-			if _, isFlag := isFlagStore(in); isFlag {
+			if addr, isFlag := isFlagStore(in); isFlag && c.flagCounts(addr, in) {
 				e.flag = true
 			}
 			return false
@@ -330,8 +330,8 @@ func (c *Ctx) RuleErr() (drop, handle *Result) {
 							handled, how = true, "non-nil side: "+h
 							break
 						}
-						// conjunctive guard: err != nil && <pure condition>
-						if pureBlock(target) {
+						// conjunctive guard: err != nil && <condition on the failed call's own input, or on the kind of the error>
+						if pureBlock(target) && conjunctAbout(target, s.call, aliases) {
 							if iff2, isIf := target.Instrs[len(target.Instrs)-1].(*ssa.If); isIf {
 								_ = iff2
 								for si, s2 := range target.Succs {
@@ -427,41 +427,32 @@ func condBranches(cond ssa.Value) []condBranch {
 // an error handler) is read back and that its true side can fail.
 func (c *Ctx) RuleErrFlags() *Result {
 	res := &Result{Rule: "ERR-FLAG", MinInst: 2}
-	seen := map[*ssa.Alloc]bool{}
 	for _, fn := range c.P.RepoFns {
 		allInstrs(fn, func(in ssa.Instruction) {
-			addr, ok := isFlagStore(in)
+			al, ok := in.(*ssa.Alloc)
 			if !ok {
 				return
 			}
-			al := allocOf(addr, fn)
-			if al == nil || seen[al] {
+			if bt, isB := derefType(al.Type()).Underlying().(*types.Basic); !isB || bt.Kind() != types.Bool {
 				return
 			}
-			// only flags that are set inside an error handler matter: the
-			// store must be control dependent on some nil test
-			seen[al] = true
 			owner := al.Parent()
 			name := allocName(al)
 			key := load.FnName(owner) + ":flag " + name
-			if !strings.Contains(strings.ToLower(name), "fail") && !flagSetUnderErrTest(al, c) {
-				return
-			}
-			res.Instances++
+			// a failure flag: some load of it guards a path that fails
 			okAny := false
 			for _, r := range referrers(al) {
 				ld, isLoad := r.(*ssa.UnOp)
 				if !isLoad || ld.Op.String() != "*" {
 					continue
 				}
-				for _, br := range condBranchesDeep(ld) {
+				for _, br := range condBranches(ld) {
 					blk := br.iff.Block()
 					succ := 0
 					if br.neg {
 						succ = 1
 					}
 					target := blk.Succs[succ]
-					// some path from the true side ends in failure
 					found := false
 					env := newEnvAt(blk)
 					env.enter(target, blk)
@@ -471,18 +462,64 @@ func (c *Ctx) RuleErrFlags() *Result {
 								found = true
 							}
 						},
-						loud: func(in ssa.Instruction, e *pathEnv) { found = true },
 					})
-					if found {
+					// the other side must be able to succeed (otherwise the variable is not a verdict)
+					other := blk.Succs[1-succ]
+					canSucceed := false
+					env2 := newEnvAt(blk)
+					env2.enter(other, blk)
+					c.explore(other, 0, env2, exploreCB{
+						ret: func(r *ssa.Return, e *pathEnv) {
+							if op := retErrOperand(r); op != nil && e.nilnessOf(op) == isNil {
+								canSucceed = true
+							}
+						},
+					})
+					if found && canSucceed {
 						okAny = true
 					}
 				}
 			}
-			if okAny {
-				res.ok(key, c.P.Pos(al.Pos()), "flag is read back and its true side fails")
-			} else {
-				res.bad(key, c.P.Pos(al.Pos()), "failure flag "+name+" is set in an error handler but never leads to a failing exit")
+			// only variables written inside a closure (per-item verdicts collected by a walk) are flags
+			inClosure := false
+			latched := true
+			var scan func(v ssa.Value, depth int)
+			scan = func(v ssa.Value, depth int) {
+				for _, r := range referrers(v) {
+					switch x := r.(type) {
+					case *ssa.Store:
+						if x.Addr != v {
+							continue
+						}
+						if depth > 0 {
+							inClosure = true
+						}
+						if bv, isC := constBool(x.Val); !isC || (!bv && depth > 0) {
+							if depth > 0 || !isC {
+								latched = false
+							}
+						}
+					case *ssa.MakeClosure:
+						for i, b := range x.Bindings {
+							if b == v {
+								if cf, ok := x.Fn.(*ssa.Function); ok && i < len(cf.FreeVars) {
+									scan(cf.FreeVars[i], depth+1)
+								}
+							}
+						}
+					}
+				}
 			}
+			scan(al, 0)
+			if !okAny || !inClosure {
+				return
+			}
+			res.Instances++
+			if !latched {
+				res.bad(key, c.P.Pos(al.Pos()), "the failure flag "+name+" is assigned a computed value (or reset) inside the per-item callback: a later success overwrites an earlier failure, so the run reports success although one item failed")
+				return
+			}
+			res.ok(key, c.P.Pos(al.Pos()), "flag is latched (the callback only ever sets it to true), read back after the walk, and its true side fails")
 		})
 	}
 	return res
@@ -551,7 +588,7 @@ func (c *Ctx) RuleErrLog() *Result {
 					if v, isV := in.(ssa.Value); isV {
 						delete(e.facts, v)
 					}
-					if _, isFlag := isFlagStore(in); isFlag {
+					if addr, isFlag := isFlagStore(in); isFlag && c.flagCounts(addr, in) {
 						e.flag = true
 					}
 					return false
@@ -676,3 +713,118 @@ func (c *Ctx) RuleErrExit() *Result {
 
 // typesSigOf is a helper for other rules.
 func typesSigOf(fn *ssa.Function) *types.Signature { return fn.Signature }
+
+// flagCounts: does setting this failure flag amount to reporting the failure?
+// Yes if every path from the flag's test (true side) fails; or if the store is
+// only reached when errors.Is/As recognised an expected failure kind (then
+// the flag's weaker, documented meaning applies: compare --all in text mode).
+func (c *Ctx) flagCounts(addr ssa.Value, store ssa.Instruction) bool {
+	fn := store.Block().Parent()
+	al := allocOf(addr, fn)
+	if al == nil {
+		return false
+	}
+	if c.flagStrong == nil {
+		c.flagStrong = map[*ssa.Alloc]bool{}
+		c.flagKnown = map[*ssa.Alloc]bool{}
+	}
+	if !c.flagKnown[al] {
+		c.flagKnown[al] = true
+		strong := false
+		for _, r := range referrers(al) {
+			ld, isLoad := r.(*ssa.UnOp)
+			if !isLoad || ld.Op.String() != "*" {
+				continue
+			}
+			for _, br := range condBranches(ld) {
+				blk := br.iff.Block()
+				succ := 0
+				if br.neg {
+					succ = 1
+				}
+				target := blk.Succs[succ]
+				all, any := true, false
+				env := newEnvAt(blk)
+				env.enter(target, blk)
+				c.explore(target, 0, env, exploreCB{
+					ret: func(r *ssa.Return, e *pathEnv) {
+						any = true
+						if op := retErrOperand(r); op == nil || e.nilnessOf(op) != nonNil {
+							all = false
+						}
+					},
+					loud: func(in ssa.Instruction, e *pathEnv) { any = true },
+				})
+				if all && any {
+					strong = true
+				}
+			}
+		}
+		c.flagStrong[al] = strong
+	}
+	if c.flagStrong[al] {
+		return true
+	}
+	isErrKind := func(cond ssa.Value, val bool) bool {
+		call, ok := cond.(*ssa.Call)
+		if !ok || !val {
+			return false
+		}
+		f := staticCallee(&call.Call)
+		return isFn(f, "errors", "Is") || isFn(f, "errors", "As")
+	}
+	return c.guardedByEdges(store, isErrKind)
+}
+
+// conjunctAbout: the branch condition of block b only looks at arguments of
+// the failed call (len(s) > 0 for ParseUint(s, ...)) or at the error itself
+// (errors.Is/As).
+func conjunctAbout(b *ssa.BasicBlock, call *ssa.Call, aliases []ssa.Value) bool {
+	iff, ok := b.Instrs[len(b.Instrs)-1].(*ssa.If)
+	if !ok {
+		return false
+	}
+	allowed := map[ssa.Value]bool{}
+	for _, a := range call.Call.Args {
+		allowed[a] = true
+	}
+	for _, a := range aliases {
+		allowed[a] = true
+	}
+	var ok2 func(v ssa.Value, d int) bool
+	ok2 = func(v ssa.Value, d int) bool {
+		if d > 6 {
+			return false
+		}
+		if allowed[v] {
+			return true
+		}
+		switch x := v.(type) {
+		case *ssa.Const:
+			return true
+		case *ssa.BinOp:
+			return ok2(x.X, d+1) && ok2(x.Y, d+1)
+		case *ssa.UnOp:
+			return ok2(x.X, d+1)
+		case *ssa.Call:
+			if bi, isB := x.Call.Value.(*ssa.Builtin); isB && bi.Name() == "len" {
+				return ok2(x.Call.Args[0], d+1)
+			}
+			f := staticCallee(&x.Call)
+			if isFn(f, "errors", "Is") || isFn(f, "errors", "As") {
+				return ok2(x.Call.Args[0], d+1)
+			}
+			return false
+		case *ssa.MakeInterface, *ssa.ChangeInterface:
+			return true
+		case *ssa.Alloc:
+			return true
+		}
+		return false
+	}
+	return ok2(iff.Cond, 0)
+}
+
+func instrInEntryBlock(in ssa.Instruction) bool {
+	return in.Block() == in.Block().Parent().Blocks[0]
+}
